@@ -193,7 +193,7 @@ inline int main_impl(int argc,char **argv,Engine &e,const char *engine_name){
 	if(!getenv("SIMK_NOASLR")){ int pers = personality(0xffffffff); if(pers != -1 && !(pers & ADDR_NO_RANDOMIZE)){ if(personality(pers | ADDR_NO_RANDOMIZE) != -1){ setenv("SIMK_NOASLR","1",1); execv("/proc/self/exe",argv); } } }
 	signal(SIGPIPE,SIG_IGN);
 	bool thorough = tier == "thorough";
-	g_scratch = "/dev/shm/verif-" + std::to_string(getpid()); mkdir(g_scratch.c_str(),0700);
+	{ const char *sb = getenv("VERIF_SCRATCH_BASE"); g_scratch = (sb ? std::string(sb) + "/w" : std::string("/dev/shm/verif-")) + std::to_string(getpid()); } mkdir(g_scratch.c_str(),0700);
 	struct Cleanup { ~Cleanup(){ if(!g_in_child){ std::string c = "rm -rf " + g_scratch; (void)!system(c.c_str()); } } } cleanup;
 	simk::on_fatal = fatal_cb;
 	auto seed_of = [&](long idx){ return mix(base,(uint64_t)idx); };
